@@ -114,9 +114,6 @@ func installHooks(logPath string, crashAt int) error {
 		if !ok {
 			name = fmt.Sprintf("other:%T", db)
 		}
-		if !hk.armed {
-			return
-		}
 		rec := writeRec{DB: name, Kind: kind, N: n, Origin: origin()}
 		if len(key) > 0 {
 			k := key
@@ -125,7 +122,8 @@ func installHooks(logPath string, crashAt int) error {
 			}
 			rec.Key = printable(k)
 		}
-		if name != "chain" && name != "store" {
+		if !hk.armed || (name != "chain" && name != "store") {
+			// not a crash point of the experiment (start-up, close, another database): logged, not numbered
 			logLine(map[string]any{"ev": "Write", "w": rec})
 			return
 		}
